@@ -6,8 +6,9 @@ Props/ComposeTables2.lean; same states `LoadedFrom img o` / `PrefixLoadedC img k
       walkers (`TQ.runQuery … (.needGet / .defGet i num k)`: the code after fixes/19) = the GNU-ABI reference reader
       `Spec.needView` / `Spec.defView` on the image's bytes when the chain is well-formed up to that entry
       (`needChainWf` / `defChainWf`, decidable), a refusal otherwise
-Images: `exImg2` (one requirement, one definition), `exImg5` (= `exImg2` with `vn_next` of the only requirement set to 0
-and to a link leaving the section — not needed for entry 0, fatal for entry 1).
+      vernum_reports_spec, vernum_nodynamic: the count the constructors cache (`TQ.dynNum`: DT_VERNEEDNUM / DT_VERDEFNUM
+      scan of the first section named `.dynamic`) = `specVerScan` of the records decoded from that section's file bytes
+Images: `exImg2` (one requirement, one definition; no `.dynamic`), `exImg6` (= `exImg4` with a DT_VERNEEDNUM entry).
 -/
 import ElfioVerif.Lemmas.LoadedTables3
 set_option linter.unusedSimpArgs false
@@ -152,5 +153,120 @@ example : specNeed exImg2 6 5 0 = some ⟨1, [0x6c, 0x69, 0x62, 0x63, 0x2e, 0x73
     specNeed exImg2 6 5 1 = none ∧ specNeed exImg2 6 0 0 = none ∧
     specDef exImg2 7 5 0 = some ⟨1, 1, 0x0a7b5c31, [0x76, 0x65, 0x72, 0x31]⟩ ∧ specDef exImg2 7 5 1 = none ∧
     (Spec.needView (encOf exImg2) (secFileBytes exImg2 6) (verTab exImg2 6) 1).isSome = true := by decide +kernel
+
+/-! #### the cached entry count: the constructors' scan of `.dynamic` (`TQ.dynNum`) -/
+
+/-- ".dynamic" -/
+def dotDynamic : Bytes := [0x2e, 0x64, 0x79, 0x6e, 0x61, 0x6d, 0x69, 0x63]
+
+/-- the sections of a loaded object carry the names the specification resolves -/
+theorem loaded_sec_name {img : Bytes} {o : Obj} (hL : LoadedFrom img o) (j : Nat) (h : j < o.secs.length) :
+    o.secs[j].name = secName img j := by
+  obtain ⟨lz, res, fd, L, hbe, _⟩ := hL.secs j h
+  rw [hbe]
+
+/-- `TQ.dynNum` is the constructor's scan on the accessor `dynSetup` builds for the first section named `.dynamic` -/
+theorem dynNum_of_setup (o : Obj) (di : Nat) (o2 : Obj) (a : DynAcc) (need : Bool)
+    (hf : o.secs.findIdx? (fun s => s.name == dotDynamic) = some di) (hs : dynSetup o di = some (o2, a)) :
+    TQ.dynNum o need = TQ.liftQN o2 (TQ.verCount need (some a)) := by
+  unfold TQ.dynNum
+  have hf' : o.secs.findIdx? (fun s => s.name == [0x2e, 0x64, 0x79, 0x6e, 0x61, 0x6d, 0x69, 0x63]) = some di := hf
+  simp only [hf']
+  unfold dynSetup at hs
+  have e : TQ.settle o di = secResident o di := rfl
+  rw [e]
+  cases h1 : secResident o di with
+  | none => rw [h1] at hs; cases hs
+  | some p =>
+    obtain ⟨o1, b⟩ := p
+    rw [h1] at hs
+    simp only at hs ⊢
+    have e2 : TQ.settle o1 (dyn_strtab_index b.link).toNat = secResident o1 (dynStrIdx b) := rfl
+    unfold TQ.settleOpt
+    rw [e2]
+    cases h2 : secResident o1 (dynStrIdx b) with
+    | none =>
+      rw [h2] at hs
+      simp only [Option.some.injEq, Prod.mk.injEq] at hs
+      obtain ⟨rfl, rfl⟩ := hs
+      rfl
+    | some q =>
+      obtain ⟨o3, s⟩ := q
+      rw [h2] at hs
+      simp only [Option.some.injEq, Prod.mk.injEq] at hs
+      obtain ⟨rfl, rfl⟩ := hs
+      rfl
+
+/-- **vernum_reports_spec** (the count the version accessors cache: the DT_VERNEEDNUM / DT_VERDEFNUM scan of their
+    constructors, `TQ.dynNum`): when `di` is the FIRST section of the file named `.dynamic` (decidable) and is a dynamic
+    section as in `dynamic_reports_spec` (occupies file space, the class's entry size, `sh_link` names nothing or a
+    file-occupying section), the constructor of `versym_r_section_accessor` (`need = true`) / `versym_d_section_accessor`
+    on the loaded object caches `specVerScan` of the records decoded from that section's FILE BYTES: the value,
+    truncated to `Elf_Word`, of the first entry before the end of the reported entries (`Spec.dynCount`: up to and
+    including the first DT_NULL) whose tag is DT_VERNEEDNUM / DT_VERDEFNUM — 0 without one. -/
+theorem vernum_reports_spec (img : Bytes) (hwf : WellFormedImage img) (o : Obj) (hL : LoadedFrom img o) (di : Nat)
+    (hdi : di < eh img "e_shnum") (hname : secName img di = dotDynamic)
+    (hfirst : ∀ j, j < di → secName img j ≠ dotDynamic)
+    (hocc : occupiesFile (sh img di "sh_type") = true)
+    (hent : sh img di "sh_entsize" = Spec.dynSize (clsOf img)) (hlink : LinkOk img di) (need : Bool) :
+    ∃ o2, TQ.dynNum o need = .ok (o2, specVerScan (specDynEntries img di) (linkedTable img di)
+        (if need then DT_VERNEEDNUM else DT_VERDEFNUM) (Spec.dynCount (specDynEntries img di)) 0) ∧
+      LoadedFrom img o2 := by
+  obtain ⟨o2, a, h1, hL2, hcfg, hG⟩ := dynSetup_good img hwf o hL di hdi hocc hent hlink
+  have hlen : di < o.secs.length := by rw [hL.nsecs]; exact hdi
+  have hf : o.secs.findIdx? (fun s => s.name == dotDynamic) = some di := by
+    rw [List.findIdx?_eq_some_iff_getElem]
+    refine ⟨hlen, by rw [loaded_sec_name hL di hlen, hname]; simp, ?_⟩
+    intro j hj
+    rw [loaded_sec_name hL j (by omega)]
+    simpa using hfirst j hj
+  refine ⟨o2, ?_, hL2⟩
+  rw [dynNum_of_setup o di o2 a need hf h1, verCount_spec need a _ _ hG, hcfg]
+  rfl
+
+/-- without a section named `.dynamic` the constructors leave the count at 0 -/
+theorem vernum_nodynamic (img : Bytes) (o : Obj) (hL : LoadedFrom img o)
+    (hnone : ∀ j, j < eh img "e_shnum" → secName img j ≠ dotDynamic) (need : Bool) :
+    TQ.dynNum o need = .ok (o, 0) := by
+  have hf : o.secs.findIdx? (fun s => s.name == [0x2e, 0x64, 0x79, 0x6e, 0x61, 0x6d, 0x69, 0x63]) = none := by
+    rw [List.findIdx?_eq_none_iff]
+    intro x hx
+    obtain ⟨j, hj, rfl⟩ := List.mem_iff_getElem.mp hx
+    rw [loaded_sec_name hL j hj]
+    have := hnone j (by rw [← hL.nsecs]; exact hj)
+    simpa [dotDynamic] using this
+  unfold TQ.dynNum
+  simp only [hf]
+  cases need <;> rfl
+
+/-- `exImg4` (ComposeTables2: `.dynamic` is section 1, data behind the header table) with the tag of its second dynamic
+    entry changed from DT_INIT to DT_VERNEEDNUM (0x6fffffff); the value stays 0x1000 -/
+def exImg6 : Bytes := (((exImg4.set 248 0xff).set 249 0xff).set 250 0xff).set 251 0x6f
+theorem exImg6_wf : WellFormedImage exImg6 := by decide +kernel
+
+example (k : StreamKind) (isLazy : Bool) :
+    ∃ r : LoadRes, load {} { data := exImg6, kind := k } isLazy = .ok r ∧
+      (∃ o2, TQ.dynNum r.obj true = .ok (o2, 4096)) ∧ (∃ o2, TQ.dynNum r.obj false = .ok (o2, 0)) := by
+  obtain ⟨r, h1, _, h3⟩ := of_load exImg6 {} k isLazy rfl exImg6_wf
+  refine ⟨r, h1, ?_, ?_⟩
+  · obtain ⟨o2, g, _⟩ := vernum_reports_spec exImg6 exImg6_wf r.obj h3 1 (by decide +kernel) (by decide +kernel)
+      (by decide +kernel) (by decide +kernel) (by decide +kernel) (by decide +kernel) true
+    have hv : specVerScan (specDynEntries exImg6 1) (linkedTable exImg6 1) DT_VERNEEDNUM
+        (Spec.dynCount (specDynEntries exImg6 1)) 0 = 4096 := by decide +kernel
+    simp only [if_true] at g
+    rw [hv] at g
+    exact ⟨o2, g⟩
+  · obtain ⟨o2, g, _⟩ := vernum_reports_spec exImg6 exImg6_wf r.obj h3 1 (by decide +kernel) (by decide +kernel)
+      (by decide +kernel) (by decide +kernel) (by decide +kernel) (by decide +kernel) false
+    have hv : specVerScan (specDynEntries exImg6 1) (linkedTable exImg6 1) DT_VERDEFNUM
+        (Spec.dynCount (specDynEntries exImg6 1)) 0 = 0 := by decide +kernel
+    simp only [Bool.false_eq_true, if_false] at g
+    rw [hv] at g
+    exact ⟨o2, g⟩
+/-- `exImg2` has no section named `.dynamic`: both counts are 0 -/
+example (k : StreamKind) (isLazy : Bool) :
+    ∃ r : LoadRes, load {} { data := exImg2, kind := k } isLazy = .ok r ∧ TQ.dynNum r.obj true = .ok (r.obj, 0) := by
+  obtain ⟨r, h1, _, h3⟩ := of_load exImg2 {} k isLazy rfl exImg2_wf
+  exact ⟨r, h1, vernum_nodynamic exImg2 r.obj h3 (by decide +kernel) true⟩
 
 end ElfioVerif.ComposeTables
